@@ -5,7 +5,7 @@ Before == IF prev = <<>> THEN "empty"
           ELSE IF prev[1].run = mem[1].run THEN "same-run"
           ELSE IF prev[1].rows < mem[1].rows THEN "other-run-fewer"
           ELSE IF prev[1].rows = mem[1].rows THEN "other-run-equal" ELSE "other-run-more"
-Sub == IF at = "m_csv" /\ folder["csv"].st = "partial" THEN <<"partial", folder["csv"].rows, folder["csv"].cut>>
+Sub == IF at = "m_csv" /\ folder["csv"].st \in {"partial", "garbled"} THEN <<"partial", folder["csv"].rows, folder["csv"].cut>>
        ELSE IF at \in {"m_params", "m_sched", "m_loss"} /\ folder[FileOf(at)].st = "partial" THEN <<"partial", 0, FALSE>>
        ELSE IF at = "w_h5" /\ folder["h5"].st = "partial" THEN <<"partial", 0, FALSE>>
        ELSE IF at = "w_h5" /\ \E i \in 1..Len(folder["h5"].tags) : folder["h5"].tags[i] = "zero" THEN <<"resized", 0, FALSE>>
